@@ -354,11 +354,19 @@ func verifC19PoolKeys() {
 		"https://a.example/", "https://a.example:443/", "https://a.example:8443/", "https://a.example:80/",
 		"http://a.example/", "http://a.example:80/", "http://a.example:443/", "https://b.example/",
 		"https://a.example._/", "https://_443._https.a.example/", "https://a.example.:443/", "https://xn--a.example/",
+		"https://[2001:db8::1]/", "https://[2001:db8::1]:8443/", "https://[2001:db8::2]/",
 	}
-	// effective origin: scheme after the documented upgrade is not applied here (no HTTPS records): http stays http
+	// effective origin: without HTTPS records http stays http; with them an http URL is
+	// upgraded to https (default port 443)
+	upgrade := vBool()
 	dns.VerifHook_DoH = func(ctx context.Context, msg *dns.Message, URL string) (*dns.Message, error) {
-		return &dns.Message{QR: 1}, nil
+		m := &dns.Message{QR: 1}
+		if d, err := dns.DecodeMessage(msg.Bytes()); err == nil && upgrade && d.Question[0].Type == 65 {
+			m.Answer = append(m.Answer, dns.RR{Name: d.Question[0].Name, Type: 65, Class: 1, TTL: 60, Data: dns.HTTPS{Priority: 1}})
+		}
+		return m, nil
 	}
+	sameHostHeader := vBool() // both requests carry the same Host header override
 	i := vInt(0, len(origins)-1)
 	j := vInt(0, len(origins)-1)
 	vAssume(i < j)
@@ -379,16 +387,23 @@ func verifC19PoolKeys() {
 		u, err := url.Parse(raw)
 		vAssert(err == nil, "origin parses")
 		req := (&http.Request{Method: "GET", URL: u, Header: http.Header{}}).WithContext(context.Background())
+		if sameHostHeader {
+			req.Host = "front.example"
+		}
 		_, _ = t.RoundTrip(req)
+		scheme := u.Scheme
+		if upgrade && scheme == "http" && net.ParseIP(u.Hostname()) == nil {
+			scheme = "https"
+		}
 		port := u.Port()
 		if port == "" {
-			if u.Scheme == "http" {
+			if scheme == "http" {
 				port = "80"
 			} else {
 				port = "443"
 			}
 		}
-		return got, u.Scheme + "|" + u.Hostname() + "|" + port
+		return got, scheme + "|" + u.Hostname() + "|" + port
 	}
 	k1, o1 := key(origins[i])
 	k2, o2 := key(origins[j])
